@@ -607,6 +607,21 @@ def check_protocol(repo: Repo, rep: Report, h: Harness, jp: JavaProtocol) -> Non
             else:
                 rep.finding("SGR-3", SUGAR, "SugarLikeBackend.solve_irrefutably", "deduction-mode reply parsing",
                             f"reply {reply_ded(descs[0]) if descs else ''!r} gives result {r!r}, sol {sols!r}; expected True and [-2, None, False, None, True]")
+            # a backend whose variable list is not in id order (the flags are positional, the names carry the ids): keys at positions 0 and 2
+            pv = [h.var("IntVar", 2, 0, 9), h.var("BoolVar", 0), h.var("BoolVar", 1)]
+            pb = h.cw.new(cls, pv)
+            descs.clear()
+            h.reply = lambda desc: (descs.append(desc), d_sat + "\n")[1]
+            h.cw.method(pb, "solve_irrefutably")([True, False, True])
+            last = descs[0].split("\n")[-1] if descs else None
+            want_names = [h.cw.call("_convert_variable", v) for v in (pv[0], pv[2])]
+            want_names = [re.fullmatch(r"\((?:bool|int) (\S+)(?: -?\d+ -?\d+)?\)", w_).group(1) for w_ in want_names]
+            if last == jp.key_marker + jp.key_sep.join(want_names):
+                rep.ok("SGR-4", f"{cls}: with variables listed as ids (2, 0, 1) and keys at positions 0 and 2 the key line names ids 2 and 1")
+            else:
+                rep.finding("SGR-4", SUGAR, "SugarLikeBackend.solve_irrefutably", "answer-key line, list order differs from ids",
+                            f"variables with ids (2, 0, 1) and key flags [True, False, True] (positional): key line sent is {last!r}, "
+                            f"expected {jp.key_marker + jp.key_sep.join(want_names)!r}")
             # no answer key at all: the key line must still be sent (its presence selects deduction mode in the wrapper)
             vs, b = fresh(cls)
             descs.clear()
